@@ -423,7 +423,7 @@ def obs_rough(r):
     return obs_float(float(r))
 
 
-HEADER = ("From Coq Require Import PrimFloat.\nFrom DD Require Import Base.PyStr Base.Value Dist.DistModel Dist.DistShow.\n"
+HEADER = ("From Coq Require Import PrimFloat.\nFrom DD Require Import Base.PyStr Base.Value Dist.DistModel Dist.DistShow Dist.DistSubShow.\n"
           "Local Open Scope Z_scope.")
 
 # ---------------------------------------------------------------------------
@@ -502,6 +502,26 @@ def zero_guard_py(a, b, mx):
     return math.frexp(u)[1] - math.frexp(d)[1] >= -1074 + 2
 
 
+def zero_guard_in_py(a, b, mx):
+    """zero_guard_in of DistSubProofs.v restated on Python floats: x, y finite and different (instead of: x - y is a
+    finite non-zero float), the difference does not overflow, the divisor is finite and non-zero, no underflow"""
+    try:
+        x = a if isinstance(a, float) else float(a)
+        y = b if isinstance(b, float) else float(b)
+    except OverflowError:
+        return None
+    if not (math.isfinite(x) and math.isfinite(y)) or x == y:
+        return False
+    if mx == 0:
+        d = math.nan if (x + y == 0 or math.isnan(x + y)) else math.copysign(math.inf, x + y) * math.copysign(1.0, mx)
+    else:
+        d = (x + y) / mx
+    u = x - y
+    if math.isinf(u) or not (math.isfinite(d) and d != 0):
+        return False
+    return math.frexp(u)[1] - math.frexp(d)[1] >= -1074 + 2
+
+
 def numbers_part(ctx):
     from deepdiff.distance import _get_numbers_distance
     rng = ctx.rng
@@ -546,6 +566,8 @@ def numbers_part(ctx):
             b = math.nextafter(b, math.inf)
         triples.append((a, b, rng.choice([1.0, 0.3, 0.5])))
     ingrid = set(id(x) for x in grid)
+    import random
+    grng = random.Random(ctx.seed ^ 0x60)
     cases = []
     gcases = []
     for (a, b, mx) in triples:
@@ -559,6 +581,13 @@ def numbers_part(ctx):
         if not (a == b) and not any(isinstance(q, float) and math.isnan(q) for q in (a, b, mx)) and (ctx.thorough or rng.random() < 0.4):
             g = zero_guard_py(a, b, mx)
             gcases.append(("sx_zero_guard %s %s %s" % (ta, tb, tm), g, {"guard_of": [repr(a), repr(b), repr(mx)]}))
+            # the same guard with its first clause on the inputs (two different finite floats; C19_numbers_zero_partial_inputs)
+            gi = zero_guard_in_py(a, b, mx)
+            if ctx.thorough or grng.random() < 0.5:
+                gcases.append(("sx_zero_guard_in %s %s %s" % (ta, tb, tm), gi, {"guard_in_of": [repr(a), repr(b), repr(mx)]}))
+            if gi is not None and bool(gi) != bool(g):
+                ctx.break_("correspondence", {"name": "zero_guard_in_sound", "a": repr(a), "b": repr(b), "max_": repr(mx),
+                                              "meaning": "the input-level guard (%r) and the guard on the computed difference (%r) disagree" % (gi, g)})
             ctx.count("zero_guard:" + ("conversion_overflows" if g is None else "inside" if g else "outside"))
             if g and mx != 0 and not (res[0] == "ok" and isinstance(res[1], (int, float)) and res[1] != 0):
                 ctx.break_("correspondence", {"name": "numbers_zero_partial", "a": repr(a), "b": repr(b), "max_": repr(mx),
@@ -860,7 +889,8 @@ def nested_model_case(r, cfg, ip):
         D.coq_cfg(False, thr, True), core.coq_bool(r["rep"]), c05.coq_pairs_table(tbl), "; ".join(inc), coq_float(float(r["cutoff"])),
         values.to_coq(x), values.to_coq(y))
     # last component: mutual_ok, the hypothesis of C19_pair_distance_range_default, observed on the nested run's levels
-    exp = [obs_rough(r["result"][1]), delta_ops(r["delta"]), icount(x), icount(y), bool(guard), bool(items_unrepeated(x, r["rep"])), True]
+    unrep = pairs_unrepeated(recs, r["rep"])
+    exp = [obs_rough(r["result"][1]), delta_ops(r["delta"]), icount(x), icount(y), bool(guard), bool(items_unrepeated(x, r["rep"])), True, bool(unrep)]
     return expr, exp, all(c05.pairs_valid(q) for q in recs), sum(len(ji) for _p, ji, _a, _b in tbl)
 
 
@@ -885,7 +915,7 @@ def gen_pairs(ctx):
     for a, b in hand:
         out.append((a, b, "hand"))
         out.append((b, a, "hand"))
-    n_rand = 6000 if ctx.thorough else 330
+    n_rand = 4500 if ctx.thorough else 330
     for _ in range(n_rand):
         v = values.gen_value(rng, depth=rng.choice([1, 2, 3]), width=rng.choice([2, 3, 4]), alias=rng.random() < 0.2)
         r = rng.random()
@@ -901,7 +931,7 @@ def gen_pairs(ctx):
             out.append(((v, s) if rng.random() < 0.5 else (s, v)) + ("scalar_vs_any",))
     # several insertions / deletions in one list (difflib opcodes), and lists of containers re-ordered and edited
     # (pairing in ignore_order mode)
-    for _ in range(1500 if ctx.thorough else 90):
+    for _ in range(1100 if ctx.thorough else 90):
         base = [values.gen_value(rng, depth=rng.choice([0, 0, 1]), width=3) for _ in range(rng.randint(3, 8))]
         new = copy.deepcopy(base)
         for _k in range(rng.randint(2, 4)):
@@ -912,7 +942,7 @@ def gen_pairs(ctx):
         if rng.random() < 0.3:
             base, new = {"k": base, "z": 1}, {"k": new, "z": 1}
         out.append((base, new, "multi_edit_list"))
-    for _ in range(1500 if ctx.thorough else 90):
+    for _ in range(1100 if ctx.thorough else 90):
         base = [values.gen_value(rng, depth=2, width=3, kinds="LDT") for _ in range(rng.randint(2, 5))]
         new = copy.deepcopy(base)
         rng.shuffle(new)
@@ -953,7 +983,7 @@ def gen_pairs(ctx):
             if ctx.thorough or rng.random() < 0.45:
                 out.append((copy.deepcopy(a), copy.deepcopy(b), "atoms"))
     uni = values.small_universe(atoms=(None, True, 2, 0.5, "a", ""), maxlen=2, depth=1, kinds="LDS")
-    k = 3000 if ctx.thorough else 160
+    k = 2200 if ctx.thorough else 160
     for _ in range(k):
         out.append((copy.deepcopy(rng.choice(uni)), copy.deepcopy(rng.choice(uni)), "universe"))
     out.extend(shared_row_pairs(rng, 400 if ctx.thorough else 60))
@@ -1295,7 +1325,7 @@ def rough_part(ctx):
                                 if not valid:
                                     ctx.break_("correspondence", {"name": "nested pairing", "t1": repr(x), "t2": repr(y), "config": cfg,
                                                                   "what": "recorded nested pairing is not a symmetric partial injection"})
-                                inside = expn[4] and (not r["rep"] or expn[5] or not paired)
+                                inside = expn[4] and (not r["rep"] or expn[7])
                                 if inside and isinstance(res[1], (int, float)) and res[1] > 1:
                                     ctx.break_("correspondence", {"name": "pair_distance_range", "t1": repr(x), "t2": repr(y), "config": cfg,
                                                                   "meaning": "inside io_guard and the type-change guard but the pairing distance is %r" % (res[1],)})
@@ -1390,6 +1420,21 @@ def items_unrepeated(v, rep):
     return True
 
 
+def pairs_unrepeated(recs, rep):
+    """pairs_unrep restated on the recorded levels: every pair points at a removed item that DeepHash identifies with no
+    other item of that level's t1 side"""
+    from harness.props import c05
+    for r in recs:
+        items = list(r["level"].t1)
+        canon = [c05.spec_canon(x, rep) for x in items]
+        for a in r["added"]:
+            if a in r["pairs"]:
+                i = r["t1_first"][r["pairs"][a]]
+                if canon.count(canon[i]) != 1:
+                    return False
+    return True
+
+
 def has_repeated_items(v):
     return not items_unrepeated(v, True)
 
@@ -1420,6 +1465,7 @@ def io_model_case(a, b, cfg, rec19):
         tree = DeepDiff(a, b, view="tree", get_deep_distance=True, **cfg)
         tbl = c05.pairs_table(rec)
         valid = all(c05.pairs_valid(x) for x in rec)
+        unrep = pairs_unrepeated(rec, rep)
     dist = tree.get("deep_distance", None)
     m = icount(a) + icount(b)
     roots = [r for r in rec19.records if r.get("root") and "delta" in r]
@@ -1434,9 +1480,9 @@ def io_model_case(a, b, cfg, rec19):
     cut = coq_float(float(cfg.get("cutoff_distance_for_pairs", 0.3)))
     expr = "dist_io_case false %s %s %s [%s] %s %s %s" % (
         D.coq_cfg(False, 0.33, True), core.coq_bool(rep), c05.coq_pairs_table(tbl), "; ".join(inc), cut, values.to_coq(a), values.to_coq(b))
-    exp = [obs_rough(dist), n_impl, icount(a), icount(b), bool(tguard), bool(uniq), True]
-    inside = bool(tguard) and (not rep or uniq or not paired)
-    return expr, exp, {"dist": dist, "paired": paired, "levels": len(tbl), "valid": valid, "inside": inside, "rep": rep,
+    exp = [obs_rough(dist), n_impl, icount(a), icount(b), bool(tguard), bool(uniq), True, bool(unrep)]
+    inside = bool(tguard) and (not rep or unrep)       # C19_deep_distance_range_ignore_order_default / _pairs
+    return expr, exp, {"dist": dist, "paired": paired, "levels": len(tbl), "valid": valid, "inside": inside, "rep": rep, "unrep": unrep, "uniq": uniq, "implied": not ((uniq or not paired) and not unrep),
                        "scalar_root": scalar_root, "n": n_impl, "m": m}
 
 
@@ -1446,7 +1492,7 @@ def io_pairs(ctx):
     from harness.props import c05
     rng = ctx.rng
     out = []
-    hand = [([[1]] * 8, [[1, 2, 3, 4]]), ([[1, 2], 7], [[1, 2, 3], 7, 7]), ([[1]] * 3, [[1, 2]]), ([[1, 2]] * 2, [[1, 2, 3]] * 3),
+    hand = [([[1]] * 8, [[1, 2, 3, 4]]), ([[1, 2], 7], [[1, 2, 3], 7, 7]), ([[1, 2], 7, 7], [[1, 2, 3], 7]), ([[1, 2], [5], [5], 7, 7, 7], [[1, 2, 3], 7, 8]), ([[1]] * 3, [[1, 2]]), ([[1, 2]] * 2, [[1, 2, 3]] * 3),
             ([1, 1, 2], [1, 3]), ([1, 2, 2, 3], [2, 3, 3, 4]), ([[1, 2], [1, 2], [3]], [[3, 4], [1, 2]]), ([{"a": 1}] * 3, [{"a": 1, "b": 2}]),
             ([(1, 2)] * 4, [(1, 2, 3), (1, 2)]), ([[], [], [1]], [[1, 1]]), ([["a", "b"]] * 5, [["a", "b", "c", "d"], "x"]),
             ({"k": [[1]] * 6}, {"k": [[1, 2, 3]]}), ([[[1]] * 4, 5], [[[1, 2, 3]], 5, 5])]
@@ -1522,6 +1568,10 @@ def io_model_part(ctx):
                     cases.append((expr, exp, tag))
                     ctx.count("io_model:" + ("rep" if rep else "norep") + ("/with_pairs" if info["paired"] else "/no_pairs")
                               + ("/inside_guard" if info["inside"] else "/outside_guard"))
+                    if not info["implied"]:
+                        ctx.break_("correspondence", dict(tag, what="io_guard holds (no repeated items / nothing paired) but pairs_unrep does not"))
+                    if rep and info["paired"] and info["unrep"] and not info["uniq"]:
+                        ctx.count("io_model:rep/pairs_unrep_holds_where_uniq_items_fails")
                     ctx.count("io_model_how:" + how)
                     x = info["dist"]
                     if info["inside"] and not info["scalar_root"] and x is not None and x > 1:
@@ -1988,6 +2038,16 @@ MATCHERS = {
 # refuted witnesses of Properties/C19.v replayed on the implementation
 # ---------------------------------------------------------------------------
 
+def _np_witness():
+    import numpy as np
+    from deepdiff.distance import _get_numpy_array_distance
+    with np.errstate(all="ignore"):
+        z = float(_get_numpy_array_distance(np.array([5.0]), np.array([0.0]), 1.0)[0])
+        n = float(_get_numpy_array_distance(np.array([float.fromhex("0x1.fffffffffffffp+1022")]),
+                                            np.array([-float.fromhex("0x1.fffffffffffffp+1023")]), 0.25)[0])
+    return z == 0 and math.isnan(n)
+
+
 def witnesses(ctx):
     from deepdiff import DeepDiff
     from deepdiff.distance import _get_numbers_distance, get_numeric_types_distance
@@ -2012,10 +2072,19 @@ def witnesses(ctx):
             report_repetition=True, cutoff_distance_for_pairs=0.6, get_deep_distance=True).get("deep_distance") == 24 / 23
          and DeepDiff([[1] for _ in range(8)], [[1, 2, 3, 4]], ignore_order=True, cutoff_distance_for_pairs=0.6,
                       get_deep_distance=True).get("deep_distance") == 3 / 23),
+        ("pairs_unrep_examples", lambda: DeepDiff([[1, 2], 7, 7], [[1, 2, 3], 7], ignore_order=True, report_repetition=True,
+            cutoff_distance_for_pairs=0.6, get_deep_distance=True).get("deep_distance") == 2 / 12),
         ("deep_distance_io_guard_satisfiable", lambda: DeepDiff([[1, 2], 7], [[1, 2, 3], 7, 7], ignore_order=True, cutoff_distance_for_pairs=0.6,
             get_deep_distance=True).get("deep_distance") == 1 / 12
          and DeepDiff([[1, 2], 7], [[1, 2, 3], 7, 7], ignore_order=True, report_repetition=True, cutoff_distance_for_pairs=0.6,
                       get_deep_distance=True).get("deep_distance") == 2 / 12),
+        ("C19_numbers_np_zero_refuted / _nan_refuted (K22)", lambda: _np_witness()),
+        ("C19_scalars_zero_refuted_datetime_collapse (K14b)", lambda: get_numeric_types_distance(
+            EPOCH_AWARE + datetime.timedelta(microseconds=9007199254740993), EPOCH_AWARE + datetime.timedelta(microseconds=9007199254740994), 1.0) == 0),
+        ("C19_scalars_zero_refuted_date_vs_datetime (K20)", lambda: get_numeric_types_distance(
+            datetime.datetime(2020, 1, 1, 5, 0), datetime.date(2020, 1, 1), 1.0) == 0),
+        ("C19_deep_distance_positive_refuted_root_numbers (K23)", lambda: "type_changes" in DeepDiff(1, 1.0)
+         and DeepDiff(1, 1.0, get_deep_distance=True).get("deep_distance", 0) == 0),
         ("K19b (tzinfo of a time ignored)", lambda: get_numeric_types_distance(
             datetime.time(12, tzinfo=datetime.timezone.utc), datetime.time(12, tzinfo=datetime.timezone(datetime.timedelta(hours=5, minutes=30))), 1.0) == 0),
     ]
